@@ -198,12 +198,13 @@ func c20Run(e *c20Env, sc c20Scenario) (fail string, faultHit bool) {
 		if sc.Primary != "absent" {
 			primaryConn = &c20Conn{name: "primary", failAfter: c20FailAfter(sc.Primary, len(e.wires[0]))}
 			scripted = append(scripted, primaryConn)
-			prim = &TCPClientTransport{addr: "127.0.0.3:5060", reconnectable: false, conn: primaryConn}
+			prim, _ = NewTCPClientTransportWithConn(primaryConn)
 		}
 		if sc.Secondary != "absent" {
-			host, _, _ := net.SplitHostPort(dest)
-			_ = host
-			st := &TCPClientTransport{addr: dest, localAddress: "", reconnectable: true}
+			dh, dps, _ := net.SplitHostPort(dest)
+			dp := 0
+			fmt.Sscanf(dps, "%d", &dp)
+			st, _ := NewTCPClientTransport(dh, dp, "", nil)
 			if sc.Secondary == "stale" {
 				staleConn = &c20Conn{name: "stale", failAfter: 0}
 				scripted = append(scripted, staleConn)
@@ -219,10 +220,10 @@ func c20Run(e *c20Env, sc c20Scenario) (fail string, faultHit bool) {
 		fo = NewFailOverClientTransport(prim, sec)
 		subject = fo
 	default: // tcpbackend: Primary describes the cached connection, Secondary the destination
-		tb := &TCPBackend{backendAddr: dest, connectionEstablished: func(net.Conn) {}}
 		if dest == "" {
-			tb.backendAddr = e.refusing
+			dest = e.refusing
 		}
+		tb, _ := NewTCPBackend("", dest, func(net.Conn) {})
 		switch sc.Primary {
 		case "healthy":
 			primaryConn = &c20Conn{name: "cached", failAfter: -1}
